@@ -331,10 +331,10 @@ def r_apply(ck: Checker) -> None:
 RULES = [
     Rule("C11.TABLE.inequalities", P, r_inequalities),
     Rule("C11.unequal-pair", P, r_unequal),
-    Rule("C11.group", P, r_group),
+    Rule("C11.group", P, r_group, extra={"C03": ("groups do not overlap",)}),
     Rule("C11.crosscheck", P, r_crosscheck),
     Rule("C11.bundle", P, r_bundle),
     Rule("C11.count", P, r_count),
-    Rule("C11.scope", P, r_scope_args),
+    Rule("C11.scope", P, r_scope_args, extra={"C02": ("objective:",), "C04": ("objective:", "rule: head variables")}),
     Rule("C11.apply", P, r_apply),
 ]
